@@ -10,6 +10,7 @@ import (
 	"encoding/json"
 	"errors"
 	"fmt"
+	"math/rand"
 	"os"
 	"path/filepath"
 
@@ -225,6 +226,97 @@ func sweepC04(m mapperT, tb2p, tp2b []pageLine, is *issues) (nRI, nCol uint64) {
 	return
 }
 
+// The eight translation functions are STATELESS: whatever was called before -- the same function, the other direction,
+// another mapper -- every result must be the one the linear sweep recorded.  Seeded call sequences with structured
+// address relations (same address, one bit flipped, +/- $800000, same page offset elsewhere, unrelated) over all eight
+// functions; a pak->bus answer that differs is also judged against the C04 statement itself.
+func historyProbe(all []pageLine, is *issues, n int) int {
+	r := rand.New(rand.NewSource(seedEnv() + 77))
+	type fn struct {
+		mp, dir string
+		f       mapFn
+		tbl     []pageLine
+		b2p     []pageLine // the same mapper's bus->pak table
+	}
+	var fns []fn
+	for i, m := range mappers {
+		fns = append(fns, fn{m.name, "b2p", m.b2p, all[i*nPages : (i+1)*nPages], all[i*nPages : (i+1)*nPages]})
+		fns = append(fns, fn{m.name, "p2b", m.p2b, all[(4+i)*nPages : (5+i)*nPages], all[i*nPages : (i+1)*nPages]})
+	}
+	image := make([]map[uint32]bool, len(mappers)) // pak pages in the image of each mapper's bus->pak
+	for i := range mappers {
+		image[i] = map[uint32]bool{}
+		for _, ln := range all[i*nPages : (i+1)*nPages] {
+			if ln.M == 1 {
+				image[i][uint32(ln.B)/pageSize] = true
+			}
+		}
+	}
+	interesting := []uint32{0, 0x1FFF, 0x2000, 0x5FFF, 0x6000, 0x7FFF, 0x8000, 0xFFFF, 0x3F0000, 0x400000, 0x600000, 0x700000, 0x7D0000, 0x7E0000,
+		0x7FFFFF, 0x800000, 0xC00000, 0xE00000, 0xEFFFFF, 0xF00000, 0xF4FFFF, 0xF50000, 0xF6FFFF, 0xF70000, 0xFFFFFF}
+	pick := func() uint32 {
+		if r.Intn(3) == 0 {
+			return (interesting[r.Intn(len(interesting))] + uint32(r.Intn(5)) - 2) & 0xFFFFFF
+		}
+		return uint32(r.Intn(1 << 24))
+	}
+	a := pick()
+	calls := 0
+	for i := 0; i < n; i++ {
+		switch r.Intn(8) {
+		case 0: // same address again
+		case 1:
+			a ^= 1 << uint(r.Intn(24))
+		case 2:
+			a = (a + 0x800000) & 0xFFFFFF
+		case 3:
+			a = a&0x1FFF | uint32(r.Intn(nPages))*pageSize // same offset, other page
+		case 4:
+			a = a&0xFFFF | uint32(r.Intn(256))<<16 // same offset, other bank
+		case 5:
+			a = (a + uint32(r.Intn(3)) - 1) & 0xFFFFFF
+		default:
+			a = pick()
+		}
+		k := r.Intn(len(fns))
+		if r.Intn(3) == 0 {
+			k = k&1 | r.Intn(4)<<1 // same direction, any mapper
+		}
+		f := fns[k]
+		if f.tbl[a/pageSize].U == 0 {
+			continue
+		}
+		got, err, pan := safeCall(f.f, a)
+		calls++
+		want, ok := fromTable(f.tbl, a)
+		if pan || ok != (err == nil) || (ok && want != got) {
+			is.add("unstable", f.mp, f.dir, a, fmt.Sprintf("after other calls f(%#x)=%#x err=%v panic=%v, but %#x mapped=%v when swept alone", a, got, err, pan, want, ok))
+			if f.dir == "p2b" && err == nil && !pan {
+				// the C04 statement for this answer
+				q, mapped := fromTable(f.b2p, got)
+				switch {
+				case !mapped:
+					is.add("c04_collapse", f.mp, "", a, fmt.Sprintf("after other calls P2B(%#x)=%#x which B2P does not map", a, got))
+				case image[k>>1][a/pageSize] && q != a:
+					is.add("c04_rightinverse", f.mp, "", a, fmt.Sprintf("after other calls P2B(%#x)=%#x but B2P(%#x)=%#x", a, got, got, q))
+				case pakClassOut(q) != pakClassIn(a) || q%pageSize != a%pageSize:
+					is.add("c04_collapse", f.mp, "", a, fmt.Sprintf("after other calls P2B(%#x)=%#x, B2P=%#x: other class or page offset", a, got, q))
+				}
+			}
+			if f.dir == "b2p" && err == nil && !pan {
+				// right inverse through this answer: P2B(got) must lead back to got
+				p2bTbl := all[(4+k>>1)*nPages : (5+k>>1)*nPages]
+				if a2, ok2 := fromTable(p2bTbl, got); !ok2 {
+					is.add("c04_rightinverse", f.mp, "", a, fmt.Sprintf("after other calls B2P(%#x)=%#x which P2B rejects", a, got))
+				} else if q, ok3 := fromTable(f.tbl, a2); !ok3 || q != got {
+					is.add("c04_rightinverse", f.mp, "", a, fmt.Sprintf("after other calls B2P(%#x)=%#x, P2B=%#x, B2P again=%#x", a, got, a2, q))
+				}
+			}
+		}
+	}
+	return calls
+}
+
 func init() {
 	register("mappages", func(args []string) error {
 		if len(args) < 1 {
@@ -245,6 +337,11 @@ func init() {
 			nRI += a
 			nCol += b
 		}
+		nHist := 4000000
+		if os.Getenv("VERIF_TIER") == "thorough" {
+			nHist = 60000000
+		}
+		histCalls := historyProbe(all, &is, nHist)
 		sysInfo := map[string]interface{}{}
 		if len(args) < 2 || args[1] != "nosystem" {
 			rd, wr, info := probeSystem(&is)
@@ -271,7 +368,7 @@ func init() {
 			"lines":            len(all),
 			"issues":           is.list,
 			"issue_counts":     is.count,
-			"sweep_rightinv_n": nRI,
+			"sweep_rightinv_n": nRI, "history_calls": histCalls,
 			"sweep_collapse_n": nCol,
 			"system":           sysInfo,
 		}
